@@ -6,9 +6,11 @@ import ScalesModel.Core.Run
 import ScalesModel.Model.Mux
 namespace Scales.TagPool
 
-/-- configuration: `max_tag` given to the TagPool (the transport uses 2^24 − 1) -/
+/-- configuration: `max_tag` given to the TagPool (the transports use 2^24 − 1) and which
+    transport sink is meant -/
 structure Cfg where
   max : Nat
+  fl : Flavour
   deriving Repr, DecidableEq
 
 /-- observation after a step: the step's own outputs, then the canonical state
@@ -38,7 +40,7 @@ def obsOf (s : St) (o : Out) : Obs :=
    s.sendq.length⟩
 
 def step (cfg : Cfg) (s : St) (op : Op) : St × Obs :=
-  let r := stepOp cfg.max s op
+  let r := stepOp cfg.fl cfg.max s op
   (r.1, obsOf r.1 r.2)
 
 /-- history produced by a variant of the transport (used for the unrepaired code) -/
@@ -51,7 +53,9 @@ def traceWith (f : Nat → St → Op → St × Out) (cfg : Cfg) : St → List Op
 /-! ### codecs -/
 
 def decCfg : List V → Option Cfg
-  | [m] => do pure ⟨← m.nat?⟩
+  | [m] => do pure ⟨← m.nat?, .thriftmux⟩
+  | [m, .a "thriftmux"] => do pure ⟨← m.nat?, .thriftmux⟩
+  | [m, .a "kafka"] => do pure ⟨← m.nat?, .kafka⟩
   | _ => none
 
 def decEv : V → Option EvKind
@@ -260,21 +264,23 @@ def dueNow (a : Acc) (op : Op) : List Nat :=
   | .notify rid => a.owed ++ tagsOf a.unans rid
   | _ => a.owed
 
-/-- the C12 clauses for one step -/
-def specObs12 (a : Acc) (idx : Nat) (op : Op) (o : Obs) : Verdict :=
+/-- the C12 clauses for one step; the two Tdiscarded clauses concern the ThriftMux transport
+    only (Kafka has no discard message: a timed-out request keeps its tag until the broker answers,
+    which is what the C11 `release` clause demands) -/
+def specObs12 (cfg : Cfg) (a : Acc) (idx : Nat) (op : Op) (o : Obs) : Verdict :=
   match (reqPairs o.wrote).find? (fun p => a.fired.contains p.2) with
   | some p => .fail "write-after-timeout" [V.ofNat idx, V.ofNat p.2, V.ofNat p.1]
   | none =>
-  if !discOk (dueNow a op) (discTags o.wrote) then
+  if cfg.fl == .thriftmux && !discOk (dueNow a op) (discTags o.wrote) then
     .fail "discard-unexpected" [V.ofNat idx, V.ofNats (discTags o.wrote), V.ofNats (dueNow a op)]
-  else if o.qlen == 0 && !(a.after op o).owed.isEmpty then
+  else if cfg.fl == .thriftmux && o.qlen == 0 && !(a.after op o).owed.isEmpty then
     .fail "discard-missing" [V.ofNat idx, V.ofNats (a.after op o).owed]
   else .ok
 
 def specGo12 (cfg : Cfg) (a : Acc) (idx : Nat) : List (Op × Obs) → Verdict
   | [] => .ok
   | (op, o) :: rest =>
-    ((specObs cfg a idx op o).and (fun _ => specObs12 a idx op o)).and
+    ((specObs cfg a idx op o).and (fun _ => specObs12 cfg a idx op o)).and
       (fun _ => specGo12 cfg (a.after op o) (idx + 1) rest)
 
 /-- C11 + C02 + C12 (multiplexed hop): what the component evaluates -/
@@ -285,11 +291,11 @@ def spec12 (cfg : Cfg) (h : List (Op × Obs)) : Verdict := specGo12 cfg {} 0 h
     labels the real run took) -/
 
 def opEnabled (cfg : Cfg) (s : St) (op : Op) : Bool :=
-  (stepOp cfg.max s op).2.res != .badop
+  (stepOp cfg.fl cfg.max s op).2.res != .badop
 
 def opsOk (cfg : Cfg) (s : St) : List Op → Bool
   | [] => true
-  | op :: ops => opEnabled cfg s op && opsOk cfg (stepOp cfg.max s op).1 ops
+  | op :: ops => opEnabled cfg s op && opsOk cfg (stepOp cfg.fl cfg.max s op).1 ops
 
 def cfgWF (cfg : Cfg) : Bool := decide (2 ≤ cfg.max)
 
